@@ -1,4 +1,5 @@
 import LekkerVerif.Properties.C01
+import LekkerVerif.Core.Subst
 
 /-! # C02 — hierarchy is transparent
 
@@ -42,3 +43,97 @@ theorem C02_level_is_solution_operator (net : NetD F) (wf : net.WF) (ex : net.Ex
     (h : net.solveWith sched = .ok total) (T : PinRef → PinRef → F) (hT : net.SolvedBy T) :
     ∀ x ∈ net.exposed, ∀ y ∈ net.exposed, total.sem x.2 y.2 = T x.2 y.2 :=
   C01_solution_unique net ex.nodup total.sem T (C01_solve_solves net wf ex sched total h) hT
+
+
+/-! ### substitution: a placed solver is indistinguishable from its inlined contents -/
+
+/-- the network of a level as an abstract network: parts = components with their pin-keyed matrices -/
+def NetD.toANet (net : NetD F) : ANet PinRef F :=
+  { parts := net.initial.map fun s => (s.pins, s.sem), links := net.links, exposed := net.exposed.map (·.2) }
+
+theorem NetD.toANet_sol (net : NetD F) (a b : PinRef → F) : net.toANet.Sol a b ↔ net.Sol a b := by
+  constructor
+  · intro h
+    refine ⟨?_, h.link, ?_⟩
+    · intro s hs; exact h.comp (s.pins, s.sem) (List.mem_map.2 ⟨s, hs, rfl⟩)
+    · intro s hs p hp hfree hne
+      exact h.free (s.pins, s.sem) (List.mem_map.2 ⟨s, hs, rfl⟩) p hp hfree hne
+  · intro h
+    refine ⟨?_, h.link, ?_⟩
+    · intro part hp
+      obtain ⟨s, hs, rfl⟩ := List.mem_map.1 hp
+      exact h.comp s hs
+    · intro part hp p hpp hfree hne
+      obtain ⟨s, hs, rfl⟩ := List.mem_map.1 hp
+      exact h.free s hs p hpp hfree hne
+
+theorem NetD.toANet_solvedBy (net : NetD F) (T : PinRef → PinRef → F) : net.SolvedBy T → net.toANet.SolvedBy T := by
+  intro h
+  constructor
+  · intro a b hs e he
+    obtain ⟨x, hx, rfl⟩ := List.mem_map.1 he
+    have := h.1 a b ((net.toANet_sol a b).1 hs) x hx
+    rw [this]
+    unfold rowSum NetD.toANet
+    simp only [List.map_map]
+    rfl
+  · intro v
+    obtain ⟨a, b, hs, hv⟩ := h.2 v
+    refine ⟨a, b, (net.toANet_sol a b).2 hs, ?_⟩
+    intro e he
+    obtain ⟨x, hx, rfl⟩ := List.mem_map.1 he
+    exact hv x hx
+
+/-- **hierarchy is transparent**: let a sub-circuit be solved by the elimination loop (any schedule) and placed in a
+parent — any other parts `out`, any parent links `Lp` reaching it through its exposed pins, any parent exposure `E`
+(`ANet.Placed`).  Then an operator `T` is the solution operator of the parent network, in which the sub-circuit is one
+component carrying the matrix its own `solve()` returned, if and only if `T` is the solution operator of the equivalent
+single-level network made of the same components and connections. -/
+theorem C02_transparent (child : NetD F) (wf : child.WF) (ex : child.ExposureOK) (sched) (total : St F)
+    (h : child.solveWith sched = .ok total)
+    (out : List (List PinRef × (PinRef → PinRef → F))) (Lp : List (PinRef × PinRef)) (E : List PinRef)
+    (pl : ANet.Placed out child.toANet Lp E) (T : PinRef → PinRef → F) :
+    (ANet.parent out child.toANet total.sem Lp E).SolvedBy T ↔ (ANet.inlined out child.toANet Lp E).SolvedBy T := by
+  have hTc := child.toANet_solvedBy total.sem (C01_solve_solves child wf ex sched total h)
+  exact ⟨ANet.substitution pl total.sem total.sem T hTc (fun _ _ _ _ => rfl),
+         ANet.substitution_conv pl total.sem total.sem T hTc (fun _ _ _ _ => rfl)⟩
+
+/-- **any nesting depth**: a grandchild inside a child inside a parent — the parent's operator is the operator of the
+fully inlined network (one application of the substitution per level; the statement iterates in the same way) -/
+theorem C02_transparent_nested {P : Type} [DecidableEq P]
+    (gc : ANet P F) (outc : List (List P × (P → P → F))) (Lc : List (P × P)) (Ec : List P)
+    (out : List (List P × (P → P → F))) (Lp : List (P × P)) (E : List P)
+    (Tg Tc T : P → P → F)
+    (pl1 : ANet.Placed outc gc Lc Ec) (hg : gc.SolvedBy Tg) (hc : (ANet.parent outc gc Tg Lc Ec).SolvedBy Tc)
+    (pl2 : ANet.Placed out (ANet.inlined outc gc Lc Ec) Lp E)
+    (hT : (ANet.parent out (ANet.parent outc gc Tg Lc Ec) Tc Lp E).SolvedBy T) :
+    (ANet.inlined out (ANet.inlined outc gc Lc Ec) Lp E).SolvedBy T := by
+  have h1 : (ANet.inlined outc gc Lc Ec).SolvedBy Tc := ANet.substitution pl1 Tg Tg Tc hg (fun _ _ _ _ => rfl) hc
+  exact ANet.substitution pl2 Tc Tc T h1 (fun _ _ _ _ => rfl) hT
+
+/-- non-vacuity of `Placed`: a two-port child (pins 0,1 linked to nothing inside, both exposed) next to a
+two-port neighbour (pins 2,3), linked 1–2, exposure 0 and 3 -/
+example : ANet.Placed (P := Nat) (F := F) [([2, 3], fun _ _ => 0)]
+    { parts := [([0, 1], fun _ _ => 0)], links := [], exposed := [0, 1] } [(1, 2)] [0, 3] := by
+  refine ⟨?_, ?_, ?_, ?_, ?_⟩
+  · intro part hp p hpp ⟨cp, hcp, hin⟩
+    simp only [List.mem_singleton] at hp hcp
+    subst hp; subst hcp
+    simp only [List.mem_cons, List.not_mem_nil, or_false] at hpp hin
+    omega
+  · intro l hl; cases hl
+  · intro e he
+    refine ⟨⟨([0, 1], fun _ _ => 0), by simp, he⟩, ?_⟩
+    intro q hq; rcases hq with hq | hq <;> cases hq
+  · intro l hl
+    have : l = (1, 2) := by simpa using hl
+    subst this
+    refine ⟨fun _ => by simp, ?_⟩
+    rintro ⟨cp, hcp, hin⟩
+    simp only [List.mem_singleton] at hcp
+    subst hcp
+    simp at hin
+  · intro e he ⟨cp, hcp, hin⟩
+    simp only [List.mem_singleton] at hcp
+    subst hcp
+    exact hin
